@@ -18,6 +18,10 @@
 #include "llbuild/BuildSystem/Tool.h"
 #include "llbuild/Commands/Commands.h"
 
+#include "llbuild/BuildSystem/BuildSystem.h"
+#include "llbuild/Core/BuildDB.h"
+#include "llbuild/llbuild.h"
+
 #include "llvm/ADT/ArrayRef.h"
 #include "llvm/ADT/Twine.h"
 #include "llvm/Support/SourceMgr.h"
@@ -333,6 +337,7 @@ struct Run {
   void reachable(const std::vector<std::string>& nodes, std::vector<const Cmd*>* order);
 
   int toolProgram(simos::ProcCtx& c);
+  void checkDatabaseCApi();
   void load();
   void writeBuildFile();
   void opBuild(const Json& op);
@@ -1434,6 +1439,151 @@ void Run::execute() {
     runner::Silence quiet;
     session.reset();
   }
+  if (property == "C20") checkDatabaseCApi();
+}
+
+// C20 (build-database half of the C interface): what libllbuild's llb_database_* calls report about the file the history left
+// behind must be what the C++ BuildDB interface reports about it - keys, values, signatures, epochs, dependency lists.
+namespace {
+struct PlainDbDelegate : public core::BuildDBDelegate {
+  std::map<std::string, uint64_t> ids;
+  std::vector<std::string> keys;
+  const core::KeyID getKeyID(const core::KeyType& key) override {
+    auto it = ids.find(key.str());
+    if (it != ids.end()) return core::KeyID((const void*)(uintptr_t)it->second);
+    keys.push_back(key.str());
+    ids[key.str()] = keys.size();
+    return core::KeyID((const void*)(uintptr_t)keys.size());
+  }
+  core::KeyType getKeyForID(const core::KeyID id) override { return core::KeyType(keys[(uint64_t)id - 1]); }
+};
+struct DbRowC {
+  std::string value;
+  uint64_t sig = 0, computedAt = 0, builtAt = 0;
+  std::vector<std::string> deps;
+  bool operator==(const DbRowC& o) const { return value == o.value && sig == o.sig && computedAt == o.computedAt && builtAt == o.builtAt && deps == o.deps; }
+  std::string show() const {
+    return "value " + util::printable(value, 40) + " sig " + std::to_string(sig) + " computed " + std::to_string(computedAt) + " built " + std::to_string(builtAt) + " deps " +
+           std::to_string(deps.size());
+  }
+};
+std::string keyBytes(llb_build_key_t* k) {
+  std::string out;
+  llb_build_key_get_key_data(k, &out, [](void* ctx, uint8_t* data, size_t n) { static_cast<std::string*>(ctx)->assign((const char*)data, n); });
+  return out;
+}
+DbRowC rowOf(const llb_database_result_t& r) {
+  DbRowC row;
+  row.value.assign((const char*)r.value.data, r.value.length);
+  row.sig = r.signature;
+  row.computedAt = r.computed_at;
+  row.builtAt = r.built_at;
+  for (uint32_t i = 0; i < r.dependencies_count; i++) row.deps.push_back(keyBytes(r.dependencies[i]));
+  return row;
+}
+} // namespace
+
+void Run::checkDatabaseCApi() {
+  std::string path = std::string(kWork) + "/build.db";
+  if (!stateOf("build.db").exists) return;
+  uint32_t schema = BuildSystem::getSchemaVersion();
+  // ---- the C++ interface
+  std::vector<std::pair<std::string, DbRowC>> cpp;
+  uint64_t cppEpoch = 0;
+  {
+    std::string err;
+    auto db = core::createSQLiteBuildDB(path, schema, /*recreateUnmatchedVersion=*/false, &err);
+    if (!db) return;   // not a database this client version may read: nothing to compare
+    PlainDbDelegate del;
+    db->attachDelegate(&del);
+    bool ok = false;
+    cppEpoch = db->getCurrentEpoch(&ok, &err);
+    std::vector<core::KeyType> keys;
+    std::vector<core::Result> results;
+    if (!ok || !db->getKeysWithResult(keys, results, &err)) return;
+    for (size_t i = 0; i < keys.size(); i++) {
+      DbRowC row;
+      row.value.assign((const char*)results[i].value.data(), results[i].value.size());
+      row.sig = results[i].signature.value;
+      row.computedAt = results[i].computedAt;
+      row.builtAt = results[i].builtAt;
+      for (auto d : results[i].dependencies) row.deps.push_back(del.getKeyForID(d.keyID).str());
+      cpp.push_back({keys[i].str(), row});
+    }
+  }
+  res.counters["db_capi_comparisons"]++;
+  res.counters["db_capi_rows"] += cpp.size();
+  // ---- the C interface
+  llb_data_t err{0, nullptr};
+  std::vector<char> pbuf(path.begin(), path.end());
+  pbuf.push_back(0);
+  {
+    // another client schema version: never interpreted - rejected with a message, file untouched (this interface never recreates)
+    std::string before;
+    readSim("build.db", &before);
+    llb_data_t verr{0, nullptr};
+    llb_database_t* other = (llb_database_t*)llb_database_open(pbuf.data(), schema + 1 + (uint32_t)(cppEpoch % 3), &verr);
+    if (other) {
+      viol("C20.4", "llb_database_open accepts a database written under another client schema version");
+      llb_database_destroy(other);
+    } else if (verr.length == 0) {
+      viol("C20.4", "llb_database_open rejects another client schema version without a message");
+    }
+    std::string after;
+    readSim("build.db", &after);
+    if (before != after) viol("C20.4", "llb_database_open with another client schema version changed the database file");
+    res.counters["db_capi_version_rejections"]++;
+  }
+  llb_database_t* cdb = (llb_database_t*)llb_database_open(pbuf.data(), schema, &err);
+  if (!cdb) {
+    viol("C20.4", "llb_database_open fails on a database the C++ interface reads: " + std::string((const char*)err.data, err.length));
+    return;
+  }
+  llb_data_t e2{0, nullptr};
+  uint64_t cEpoch = llb_database_get_epoch(cdb, &e2);
+  if (cEpoch != cppEpoch) viol("C20.4", "llb_database_get_epoch reports " + std::to_string(cEpoch) + ", the C++ interface " + std::to_string(cppEpoch));
+  llb_database_fetch_result_t* fr = nullptr;
+  if (!llb_database_get_keys(cdb, &fr, &e2) || !fr) {
+    viol("C20.4", "llb_database_get_keys fails");
+  } else {
+    uint64_t n = llb_database_fetch_result_get_count(fr);
+    if (n != cpp.size()) viol("C20.4", "llb_database_get_keys reports " + std::to_string(n) + " keys, the C++ interface " + std::to_string(cpp.size()));
+    for (uint64_t i = 0; i < n && i < cpp.size(); i++)
+      if (keyBytes(llb_database_fetch_result_get_key_at_index(fr, (int32_t)i)) != cpp[i].first) viol("C20.4", "llb_database_get_keys: key " + std::to_string(i) + " differs from the C++ interface");
+    if (llb_database_fetch_result_contains_rule_results(fr)) viol("C20.4", "a keys-only fetch result claims to contain rule results");
+    llb_database_destroy_fetch_result(fr);
+  }
+  fr = nullptr;
+  if (!llb_database_get_keys_and_results(cdb, &fr, &e2) || !fr) {
+    viol("C20.4", "llb_database_get_keys_and_results fails");
+  } else {
+    uint64_t n = llb_database_fetch_result_get_count(fr);
+    if (n != cpp.size()) viol("C20.4", "llb_database_get_keys_and_results reports " + std::to_string(n) + " rows, the C++ interface " + std::to_string(cpp.size()));
+    if (!llb_database_fetch_result_contains_rule_results(fr)) viol("C20.4", "a keys-and-results fetch result claims to contain no rule results");
+    for (uint64_t i = 0; i < n && i < cpp.size(); i++) {
+      std::string k = keyBytes(llb_database_fetch_result_get_key_at_index(fr, (int32_t)i));
+      DbRowC row = rowOf(*llb_database_fetch_result_get_result_at_index(fr, (int32_t)i));
+      if (k != cpp[i].first || !(row == cpp[i].second))
+        viol("C20.4", "row " + std::to_string(i) + " (" + util::printable(cpp[i].first, 40) + ") read through llb_database_get_keys_and_results: " + row.show() + "; through the C++ interface: " +
+                          cpp[i].second.show());
+    }
+    llb_database_destroy_fetch_result(fr);
+  }
+  // ---- one lookup per key, released the documented way
+  for (auto& e : cpp) {
+    llb_data_t kd{e.first.size(), (const uint8_t*)e.first.data()};
+    llb_build_key_t* key = llb_build_key_make(&kd);
+    llb_database_result_t r;
+    memset(&r, 0, sizeof r);
+    llb_data_t e3{0, nullptr};
+    bool found = llb_database_lookup_rule_result(cdb, key, &r, &e3);
+    if (!found) viol("C20.4", "llb_database_lookup_rule_result finds nothing for stored key " + util::printable(e.first, 40));
+    else if (!(rowOf(r) == e.second)) viol("C20.4", "llb_database_lookup_rule_result of " + util::printable(e.first, 40) + ": " + rowOf(r).show() + "; C++ interface: " + e.second.show());
+    llb_database_destroy_result(&r);
+    llb_build_key_destroy(key);
+    res.counters["db_capi_lookups"]++;
+  }
+  llb_database_destroy(cdb);
 }
 
 void onFatal(sim::EndKind kind, const std::vector<sim::ThreadDump>& threads) {
@@ -2157,6 +2307,7 @@ struct Gen {
           continue;
         }
         if (p.empty()) p = keys[rng.below(keys.size())];
+        std::string newlyIncluded;
         if (rng.chance(120) && p.size() > 2 && p.substr(p.size() - 2) == ".h") {
           hist.push(Json::obj().set("op", "delete").set("path", util::hex(p)));
           sources.erase(p);
@@ -2178,7 +2329,10 @@ struct Gen {
             if (!hs.empty()) {
               std::string h = hs[rng.below(hs.size())];
               // no include cycles: only include "later" names
-              if (h > p && std::find(inc.begin(), inc.end(), h) == inc.end()) inc.push_back(h);
+              if (h > p && std::find(inc.begin(), inc.end(), h) == inc.end()) {
+                inc.push_back(h);
+                newlyIncluded = h;
+              }
             }
           }
           std::string content = freshContent("edit", inc);
@@ -2190,6 +2344,22 @@ struct Gen {
           hist.push(Json::obj().set("op", "edit").set("path", util::hex(p)).set("content", util::hex(content)));
         }
         addBuild();
+        if (!newlyIncluded.empty() && sources.count(newlyIncluded) && rng.chance(property == "C11" ? 600 : 250)) {
+          // ... and the header that has just become a dependency changes next: whoever discovered it in the build above
+          // (possibly while reproducing the very value it had before) must re-run
+          std::vector<std::string> hinc;
+          size_t hp = 0;
+          const std::string hold = sources[newlyIncluded];
+          while ((hp = hold.find("#include ", hp)) != std::string::npos) {
+            size_t eol = hold.find('\n', hp);
+            hinc.push_back(hold.substr(hp + 9, eol - hp - 9));
+            hp = eol;
+          }
+          pastContents[newlyIncluded].push_back(hold);
+          sources[newlyIncluded] = freshContent("edit", hinc);
+          hist.push(Json::obj().set("op", "edit").set("path", util::hex(newlyIncluded)).set("content", util::hex(sources[newlyIncluded])));
+          addBuild();
+        }
       } else if (roll < 640 && roll >= 620 && !maybes.empty()) {
         std::string m = maybes[rng.below(maybes.size())];
         if (sources.count(m)) {
